@@ -76,7 +76,9 @@ Record job := mkJob {
   j_volumes : list volume; j_plugins : option (list plugin);
   j_queue : Z; j_sched : Z; j_maxretry : Z; j_prio : Z;
   j_nt : Z;                             (* spec.networkTopology summary *)
-  j_rest : Z }.                         (* every other spec field, opaque *)
+  j_rest : Z;                           (* every other spec field, opaque *)
+  j_term : bool }.                      (* metadata.deletionTimestamp set (Terminating); like j_name
+                                           not part of the spec: AdmitJobs never reads it *)
 (* q_term: metadata.deletionTimestamp is set (the object is terminating but still
    served by the lister / informer).  Neither QueueLister.Get nor GetQueuesByParent
    looks at it, so no function below reads it: a terminating child is a child. *)
@@ -331,7 +333,7 @@ Definition mutate (dsched : Z) (j : job) : job :=
     (if j_queue j =? 0 then Q_DEFAULT else j_queue j)
     (if j_sched j =? 0 then dsched else j_sched j)
     (if j_maxretry j =? 0 then DEFAULT_MAX_RETRY else j_maxretry j)
-    (j_prio j) (j_nt j) (j_rest j).
+    (j_prio j) (j_nt j) (j_rest j) (j_term j).
 
 (* ---------- validateJobUpdate (admit_job.go 239-304) ---------- *)
 Definition update_task_ok (t : task) : bool :=
@@ -364,18 +366,18 @@ Proof. repeat decide equality. Defined.
 Definition spec_view (j : job) : job :=
   mkJob 0 (j_tasks j) (j_minavail j) (j_policies j) (j_volumes j)
         (match j_plugins j with Some [] => None | x => x end)
-        (j_queue j) (j_sched j) (j_maxretry j) (j_prio j) (j_nt j) (j_rest j).
+        (j_queue j) (j_sched j) (j_maxretry j) (j_prio j) (j_nt j) (j_rest j) false.
 Definition job_eq_dec : forall a b : job, {a = b} + {a <> b}.
 Proof. repeat decide equality. Defined.
 
 Definition normalize_new (old new : job) : job :=
   mkJob 0 (norm_tasks (j_tasks old) (j_tasks new)) (j_minavail old) (j_policies new)
         (map norm_vol (j_volumes new)) (j_plugins new) (j_queue new) (j_sched new)
-        (j_maxretry new) (j_prio old) (j_nt new) (j_rest new).
+        (j_maxretry new) (j_prio old) (j_nt new) (j_rest new) false.
 Definition normalize_old (old : job) : job :=
   mkJob 0 (j_tasks old) (j_minavail old) (j_policies old) (map norm_vol (j_volumes old))
         (j_plugins old) (j_queue old) (j_sched old) (j_maxretry old) (j_prio old) (j_nt old)
-        (j_rest old).
+        (j_rest old) false.
 
 Definition validate_update (old new : job) : bool :=
   forallb update_task_ok (j_tasks new) &&
